@@ -175,6 +175,8 @@ pub enum Target {
   FileLiteral,
   /// a specifier that cannot be resolved (bare, no resolver mapping)
   Bare,
+  /// a `jsr:` specifier of a package the loader does not know
+  Jsr,
 }
 
 #[derive(Clone, Copy, PartialEq, Eq, Hash, Debug)]
@@ -257,6 +259,7 @@ impl World {
       Target::Http => "http://x/plain.ts".into(),
       Target::FileLiteral => "file:///w/local.ts".into(),
       Target::Bare => "bare-pkg".into(),
+      Target::Jsr => "jsr:@s/pkg@1".into(),
     }
   }
 
@@ -329,7 +332,7 @@ impl World {
       let form = forms[pick("form", forms.len())];
       let mut targets: Vec<Target> = (0..o.n_specs).map(Target::Spec).collect();
       if o.special_targets {
-        targets.extend([Target::Node, Target::Npm, Target::Data, Target::Bare]);
+        targets.extend([Target::Node, Target::Npm, Target::Data, Target::Bare, Target::Jsr]);
         if remote {
           targets.extend([Target::Http, Target::FileLiteral]);
         }
